@@ -180,7 +180,7 @@ impl<K: KeyT> World<K> {
             };
             match res {
                 Caught::Ok(Ok(c)) => {
-                    self.slots[b] = Slot { obj: Obj::Rodeo(c), shadow: self.slots[a].shadow.clone() };
+                    self.slots[b] = Slot { obj: Obj::Rodeo(c), shadow: self.slots[a].shadow.clone(), born: "" };
                     // the copy holds no static references: everything was copied into its arena
                     for s in self.slots[b].shadow.stat.iter_mut() {
                         *s = None;
@@ -241,19 +241,19 @@ impl<K: KeyT> World<K> {
                     if both_unlimited {
                         self.fail("C12", "unlimited-clone-failed", format!("clone_from into an unlimited interner failed: {}", err_name(&e)));
                     }
-                    self.slots[a] = Slot { obj: Obj::Gone, shadow: Shadow::new() };
+                    self.slots[a] = Slot { obj: Obj::Gone, shadow: Shadow::new(), born: "" };
                     err_name(&e).into()
                 }
                 Caught::Panic => {
                     if both_unlimited {
                         self.fail("C12", "unlimited-clone-failed", "clone_from into an unlimited interner panicked".into());
                     }
-                    self.slots[a] = Slot { obj: Obj::Gone, shadow: Shadow::new() };
+                    self.slots[a] = Slot { obj: Obj::Gone, shadow: Shadow::new(), born: "" };
                     "panic".into()
                 }
                 Caught::Fault(site) => {
                     self.fail("C04", "fault-in-clone", format!("clone_from faulted: {site}"));
-                    self.slots[a] = Slot { obj: Obj::Gone, shadow: Shadow::new() };
+                    self.slots[a] = Slot { obj: Obj::Gone, shadow: Shadow::new(), born: "" };
                     "fault".into()
                 }
             }
@@ -303,6 +303,7 @@ impl<K: KeyT> World<K> {
             Caught::Ok(None) => "bad-op".into(),
             Caught::Panic | Caught::Fault(_) => {
                 let site = if let Caught::Fault(s) = &res { s.clone() } else { "documented-panic message".into() };
+                self.cur_born = self.slots[si].born;
                 self.fail("C06", "fault-in-conversion", format!("{op} faulted: {site}"));
                 self.fail("C04", "fault-in-conversion", format!("{op} faulted: {site}"));
                 self.slots[si].shadow = Shadow::new();
